@@ -60,6 +60,16 @@ func typeUniverse() []tast {
 		tp("DateTime64", "6", "'UTC'"), tp("DateTime64", "9"), dec(9, 2), dec(9, 4), dec(10, 2), dec(18, 0), dec(38, 1), dec(76, 0), dec(100, 2),
 		tp("Decimal32", "2"), tp("Decimal64", "4"))
 	out := append([]tast{}, base...)
+	// maps whose key type has parameters (its own base is one the relation relaxes) over plain value types, and
+	// tuples of different arity: the value type / the length must still matter
+	for _, k := range []tast{te("LowCardinality", t0("String")), tp("DateTime", "'UTC'"), t0("DateTime"), tp("Enum8", "'a' = 1", "'b' = 2"), tp("FixedString", "3"), t0("String")} {
+		for _, v := range []tast{t0("Int64"), t0("Float64"), t0("UInt32"), t0("String")} {
+			out = append(out, te("Map", k, v))
+		}
+	}
+	out = append(out, te("Tuple", t0("Int8")), te("Tuple", t0("Int8"), t0("String")), te("Tuple", t0("Int8"), t0("String"), t0("UInt8")),
+		te("Tuple", t0("Int8"), t0("Int8")), te("Array", te("Tuple", t0("UInt8"), t0("UInt8"))), te("Array", te("Tuple", t0("UInt8"), t0("UInt8"), t0("UInt8"))),
+		te("Map", t0("String"), tp("DateTime", "'UTC'")), te("Map", t0("String"), t0("DateTime")))
 	for i, b := range base {
 		out = append(out, te("Array", b), te("Nullable", b))
 		if i%2 == 0 {
@@ -118,10 +128,14 @@ func typesMain(args []string) error {
 		if idx%*nshard != *shard {
 			continue
 		}
-		if *pairs > 0 && total > *pairs && rng.Intn(total) >= *pairs && idx/len(u) != idx%len(u) {
+		a, b := u[idx/len(u)], u[idx%len(u)]
+		if a.Prec > 76 || b.Prec > 76 {
+			continue // Decimal precisions beyond 76 are not types; they only take part in the inference runs below
+		}
+		structured := (a.B == "Map" || a.B == "Tuple" || (a.B == "Array" && len(a.Es) == 1 && a.Es[0].B == "Tuple")) && a.B == b.B
+		if *pairs > 0 && total > *pairs && rng.Intn(total) >= *pairs && idx/len(u) != idx%len(u) && !structured {
 			continue
 		}
-		a, b := u[idx/len(u)], u[idx%len(u)]
 		as, bs := a.render(idx%2 == 0), b.render(idx%3 == 0)
 		tw.Emit(map[string]any{"ev": "Pair", "a": a, "b": b, "as": as, "bs": bs,
 			"cab": proto.ColumnType(as).Conflicts(proto.ColumnType(bs)), "cba": proto.ColumnType(bs).Conflicts(proto.ColumnType(as))})
